@@ -141,6 +141,13 @@ func (c *EvalCtx) eval(e Expr) EV {
 			return EV{T: Not(c.term(x)), Ty: types.Typ[types.Bool]}
 		case "-":
 			return EV{T: Sub(IntLit(0), c.term(x)), Ty: x.Ty}
+		case "*":
+			p, ok := types.Unalias(x.Ty).Underlying().(*types.Pointer)
+			if !ok {
+				c.fail("dereference of non-pointer %s", ExprString(e.X))
+			}
+			l := fr.locOf(Val{T: c.term(x)}, p.Elem())
+			return EV{T: fr.load(l), Ty: p.Elem()}
 		}
 	case EBin:
 		return c.binary(e)
@@ -716,6 +723,13 @@ func (c *EvalCtx) call(e ECall) EV {
 		n := c.inState(c.old)
 		n.withFrameState(func() { out = n.eval(e.Args[0]) })
 		return out
+	case "reached":
+		// reached(snapshotName): this execution passed the point where the snapshot is taken
+		g, ok := fr.R.snapReached[identName(e.Args[0])]
+		if !ok {
+			c.fail("no snapshot %q (is there a call site?)", identName(e.Args[0]))
+		}
+		return EV{T: g, Ty: types.Typ[types.Bool]}
 	case "at":
 		// at(snapshotName, expr): expr evaluated in the state saved by a 'snapshot' clause
 		st, ok := fr.R.snaps[identName(e.Args[0])]
